@@ -13,9 +13,9 @@
    two of them share a number.  `e` starts at the configured or recovered start number:
      initiator: 1 if reset_sequence_numbers, else the send_seqnum argument if given, else the sender
                 number of the control record found at start (file persister), else 1;
-     acceptor : 1 at start; while an inbound Logon is processed the numbering may be re-based ONCE
-                per new message to 1 (ResetSeqNumFlag=Y), to the control record's sender number, or to
-                the send_seqnum argument.
+     acceptor : 1 at start; when it processes a Logon while not yet logged on it MUST re-base to the
+                required start number (see inbound_expect): 1 on ResetSeqNumFlag=Y, else the send_seqnum
+                argument, else the control record's sender number (file persister).
    Control clause: after every operation that put a message on the wire or processed an inbound
    message, with a file persister attached, the control record equals (next_send, next_recv).
    (The MemoryPersister's control record cannot be read back at all: F30, property C26.) *)
@@ -75,7 +75,8 @@ Definition has_ret (evs : list event) : bool :=
 Record ost := mkOst {
   o_expect : N;
   o_sp : startp;
-  o_ctrl : option (N * N)          (* control record at the previous snapshot *)
+  o_ctrl : option (N * N);         (* control record at the previous snapshot *)
+  o_state : N                      (* session state at the previous snapshot *)
 }.
 
 Definition start_number (p : startp) (ctrl : option (N * N)) : N :=
@@ -109,6 +110,58 @@ Definition rebase_alts (o : ost) (chunks : list bytes) : list N :=
     else []
   end.
 
+(* An acceptor that processes a Logon while it is not yet logged on (state other than continuous) MUST
+   re-base: the first new message it then sends -- its Logon reply, or the Logout of the force-logoff
+   path -- carries the required start number: 1 if the Logon has ResetSeqNumFlag=Y (the VALUE of the flag:
+   141=N is not a reset), else the configured send_seqnum, else the sender number of the recovered control
+   record (file persister), else the numbering simply continues.  A Reject (the Logon did not decode) and
+   an operation whose inbound stream is not exactly one Logon are judged by the permissive rule
+   (rebase_alts) instead. *)
+Definition first_new_type (evs : list event) : option bytes :=
+  let fix go (l : list event) :=
+    match l with
+    | [] => None
+    | EOut raw :: l' =>
+      let t := tokens raw in
+      if is_possdup t || is_gapfill t then go l' else tok_get (tagb T_MsgType) t
+    | _ :: l' => go l'
+    end in go evs.
+
+Definition single_logon (chunks : list bytes) : option bool :=      (* Some reset? *)
+  match frames (concat chunks) with
+  | ([raw], []) =>
+    let t := tokens raw in
+    match tok_get (tagb T_MsgType) t with
+    | Some ty => if beq ty [65] then Some (flag_set (tok_get (tagb T_ResetSeqNumFlag) t)) else None
+    | None => None
+    end
+  | _ => None
+  end.
+
+Definition required_start (o : ost) (reset : bool) : N :=
+  if reset then 1
+  else if negb (sp_ss (o_sp o) =? 0) then sp_ss (o_sp o)
+  else match sp_pk (o_sp o), o_ctrl o with
+       | PFile, Some (a, _) => a
+       | _, _ => o_expect o
+       end.
+
+(* (expected number at the start of the operation, permitted alternatives) for an inbound operation *)
+Definition inbound_expect (o : ost) (chunks : list bytes) (evs : list event) : N * list N :=
+  match sp_role (o_sp o) with
+  | Initiator => (o_expect o, [])
+  | Acceptor =>
+    match single_logon chunks with
+    | Some reset =>
+      if o_state o =? 1 then (o_expect o, [])                      (* already logged on: Reject, no re-base *)
+      else match first_new_type evs with
+           | Some ty => if beq ty [65] || beq ty [53] then (required_start o reset, []) else (o_expect o, [])
+           | None => (o_expect o, [])
+           end
+    | None => (o_expect o, rebase_alts o chunks)
+    end
+  end.
+
 Definition ctrl_clause (p : startp) (o : op) (st : step) : bool :=
   match sp_pk p, st_snap st with
   | PFile, Some sn =>
@@ -127,14 +180,15 @@ Definition c16_step (o : ost) (oper : op) (st : step) : option ost :=
     match oper with
     | OStart p _ => (p, start_number p None, [])
     | ORestart => (o_sp o, start_number (o_sp o) (o_ctrl o), [])
-    | OIn chunks => (o_sp o, o_expect o, rebase_alts o chunks)
+    | OIn chunks => (o_sp o, fst (inbound_expect o chunks (st_events st)), snd (inbound_expect o chunks (st_events st)))
     | _ => (o_sp o, o_expect o, [])
     end in
   match num_events alts e0 (st_events st) with
   | None => None
   | Some e' =>
     if ctrl_clause sp' oper st then
-      Some (mkOst e' sp' (match st_snap st with Some sn => sn_ctrl sn | None => o_ctrl o end))
+      Some (mkOst e' sp' (match st_snap st with Some sn => sn_ctrl sn | None => o_ctrl o end)
+                  (match st_snap st with Some sn => sn_state sn | None => o_state o end))
     else None
   end.
 
@@ -149,7 +203,7 @@ Fixpoint c16_steps (o : ost) (ops : list op) (tr : trace) : bool :=
   | _, _ => false
   end.
 
-Definition ost0 : ost := mkOst 1 default_sp None.
+Definition ost0 : ost := mkOst 1 default_sp None 0.
 
 Definition c16_ok (ops : list op) (tr : trace) : bool := c16_steps ost0 ops tr.
 
